@@ -171,11 +171,12 @@ func (g *Gen) test(ax string) *Test {
 	case 5, 6:
 		return &Test{K: "any"}
 	case 7:
-		return &Test{K: "nsany", Pre: []string{"p", "q"}[g.r.Intn(2)]}
+		// (xml is NOT bound in the sessions' environments: an unbound prefix, and the one a library might be tempted to predeclare)
+		return &Test{K: "nsany", Pre: []string{"p", "q", "p", "q", "p", "q", "xml"}[g.r.Intn(7)]}
 	case 8:
 		return &Test{K: "localany", Lo: g.name(ax)}
 	case 9:
-		return &Test{K: "name", Pre: []string{"p", "q"}[g.r.Intn(2)], Lo: g.name(ax)}
+		return &Test{K: "name", Pre: []string{"p", "q", "p", "q", "p", "q", "xml"}[g.r.Intn(7)], Lo: g.name(ax)}
 	}
 	return &Test{K: "name", Lo: g.name(ax)}
 }
